@@ -33,6 +33,24 @@ static void ycocgr_all(bool thorough)
 // ---- sRGB
 static double ref_l2s(double x, double ginv) { double c = std::min(1.0, std::max(0.0, x)); return c < 0.0031308 ? c * 12.92 : std::pow(c, ginv) * 1.055 - 0.055; }
 static double ref_s2l(double s, double g) { return s <= 0.04045 ? s / 12.92 : std::pow((s + 0.055) / 1.055, g); }
+// the lowp vec3 overload of convertLinearToSRGB is a separate formula (a sum of three nested square roots): same contract, looser accuracy (its own error is below 1e-3
+// from the threshold 0.0031308 upwards); below the threshold it goes negative -- a recorded finding, its own class
+static void srgb_lowp(Rng& r, int n)
+{
+	typedef glm::vec<3, float, glm::lowp> V; std::string fn = "convertLinearToSRGB<lowp_vec3>"; const double knee = 0.0031308;
+	auto f = [](float x, int lane) { V c(0.25f, 0.5f, 0.75f); c[lane] = x; return glm::convertLinearToSRGB(c)[lane]; };
+	if (f(0.f, 0) != 0.f || std::fabs((double)f(1.f, 2) - 1) > 2e-6) tfail(fn, "end points", "0, 1", "0, 1", str((double)f(0.f, 0)) + ", " + str((double)f(1.f, 2)));
+	for (int i = 0; i <= n; ++i) {
+		double xd = (i % 3 == 0) ? (double)i / n : r.real(0, 1); if (i % 7 == 1) xd = knee * std::pow(10.0, r.real(0, 2.5)); if (i % 7 == 2) xd = knee * std::pow(10.0, -r.real(0, 5)); if (i % 17 == 3) xd = knee + r.real(0, 1e-5);
+		if (xd > 1) xd = 1; float x = (float)xd; int lane = i % 3; float e = f(x, lane); std::string in = str((double)x); double ref = ref_l2s((double)x, 1 / 2.4);
+		if ((double)x < knee) { if (!(e >= 0 && std::fabs((double)e - ref) <= 2e-3)) tfail(fn, "below the threshold 0.0031308", in, str(ref), str((double)e)); continue; }
+		if (!(std::fabs((double)e - ref) <= 2e-3)) tfail(fn, "value (2e-3)", in, str(ref), str((double)e));
+		if (!(e >= 0 && e <= 1.000002f)) tfail(fn, "outside [0,1]", in, "[0,1]", str((double)e));
+		float x2 = std::min(1.f, x + 1e-4f + (float)r.real(0, 0.05)); float e2 = f(x2, (lane + 1) % 3); if (!(e2 >= e - 1e-6f)) tfail(fn, "not monotone", in + " < " + str((double)x2), ">= " + str((double)e), str((double)e2));
+		float back = glm::convertSRGBToLinear(glm::vec<3, float, glm::lowp>(e, e, e))[lane]; double slope = 12.92; if (!(std::fabs((double)back - (double)x) <= 2e-3 * 1.0 + 1e-6) && slope > 0) tfail(fn, "convertSRGBToLinear does not invert it (2e-3)", in, in, str((double)back));
+	}
+	std::lock_guard<std::mutex> l(g_mu); count("lowp vec3 convertLinearToSRGB", n + 1);
+}
 template<class T> static void srgb(Rng& r, int n, const char* tn)
 {
 	double tol = sizeof(T) == 4 ? 3e-6 : 1e-9; std::string sfx = std::string("<") + tn + ">";
@@ -103,7 +121,7 @@ int main(int argc, char** argv)
 {
 	uint64_t seed = argc > 2 ? std::strtoull(argv[2], 0, 10) : 1; bool thorough = argc > 3 && std::string(argv[3]) == "thorough"; Rng r(seed * 17 + 9);
 	ycocgr_all(thorough);
-	srgb<float>(r, thorough ? 2000000 : 60000, "float"); srgb<double>(r, thorough ? 2000000 : 60000, "double");
+	srgb<float>(r, thorough ? 2000000 : 60000, "float"); srgb<double>(r, thorough ? 2000000 : 60000, "double"); srgb_lowp(r, thorough ? 2000000 : 60000);
 	others<float>(r, thorough ? 2000000 : 60000, "float"); others<double>(r, thorough ? 2000000 : 60000, "double");
 	return finish();
 }
